@@ -1,0 +1,39 @@
+//go:build verif
+
+package keystore
+
+// Contracts for govc (see /verif/DESIGN.md, C01): what an import does with the fields of the keystore file.
+// authentic(x) holds for data that passed an integrity check (authenticated decryption, digest comparison).  The file's
+// HD path counters and remark pass none: those two obligations are recorded known findings.
+
+//@ spec func authenticPath(p *hdPath) bool
+//@ spec func authenticText(s string) bool
+
+//@ func pubKeyToAccountID
+//@   assert-at call SerializeCompressed identifier-from-this-public-key: arg0 == pubKey
+//@   assert-at call Hash160 hash160-of-the-compressed-key: arg0 == lastresult("SerializeCompressed")
+//@   assert-at call encodeSegWitAddress bech32-of-that-hash: arg0 == "ac" && arg1 == 15 && arg2 == lastresult("Hash160")
+//@   assert-at return#-1 that-encoding-is-the-identifier: result0 == lastresult("encodeSegWitAddress") && result1 == nil
+
+//@ func createManagerKeyScope
+//@   assert-at call deriveCoinTypeKey coin-key-from-the-given-root: arg0 == root
+//@   assert-at call deriveAccountKey account-key-at-the-file-account-number: arg0 == lastresult("deriveCoinTypeKey") && arg1 == hdPath.Account
+//@   assert-at call Neuter#1 identifier-from-the-account-key: arg0 == lastresult("deriveAccountKey")
+//@   assert-at call ECPubKey public-half-of-the-account-key: arg0 == lastresult("Neuter#1")
+//@   assert-at call pubKeyToAccountID identifier-of-that-public-key: arg0 == lastresult("ECPubKey")
+//@   assert-at call Get duplicate-looked-up-under-the-identifier: true
+//@   assert-at call putAccountID only-a-new-identifier-is-registered: lastresult("Get") == nil
+//@   assert-at call NewBucket keystore-bucket-named-by-the-identifier: arg1 == lastresult("pubKeyToAccountID")
+
+//@ func (*KeystoreManagerForPoC).allocAddrMgrNamespace
+//@   assert-at call DecodeString#1 master-key-parameters-from-the-file: arg0 == kStore.Crypto.PrivParams
+//@   assert-at call DecodeString#2 crypto-key-ciphertext-from-the-file: arg0 == kStore.Crypto.CryptoKeyPrivEnc
+//@   assert-at call DecodeString#3 root-key-ciphertext-from-the-file: arg0 == kStore.Crypto.MasterHDPrivKeyEnc
+//@   assert-at call unmarshalMasterPrivKey old-master-key-from-the-export-passphrase: arg1 == oldPass && arg2 == lastresult("DecodeString#1")
+//@   assert-at call Decrypt#1 crypto-key-opened-with-the-old-master-key: arg1 == lastresult("DecodeString#2")
+//@   assert-at call CopyBytes that-plaintext-becomes-the-old-crypto-key: arg1 == lastresult("Decrypt#1")
+//@   assert-at call Decrypt#2 root-key-opened-with-the-old-crypto-key: arg1 == lastresult("DecodeString#3")
+//@   assert-at call defaultNewSecretKey#1 new-private-master-key-from-the-new-passphrase: deref(arg0) == newPass
+//@   assert-at call createManagerKeyScope keys-rederived-from-the-decrypted-root-with-the-file-path: arg1 == lastresult("NewKeyFromString") && arg4 == kStore.HDpath
+//@   assert-at call createManagerKeyScope file-counters-were-integrity-checked: authenticPath(kStore.HDpath)
+//@   assert-at call putRemark file-remark-was-integrity-checked: authenticText(kStore.Remark)
